@@ -117,7 +117,7 @@ def iterate_facts(ck, m):
 def rule_padding_after_cache(ck, m, rid):
     itf, rc = iterate_facts(ck, m)
     g = CFG(itf)
-    pads = [n for n in g.nodes if n.kind == "stmt" and isinstance(n.ast, ast.Assign) and norm(n.ast.targets[0]) == "frame" and ".pad(" in norm(n.ast.value)]
+    pads = [n for n in g.nodes if n.kind == "stmt" and isinstance(n.ast, ast.Assign) and norm(n.ast.targets[0]) == "frame" and ".pad(" in norm(trace(itf, n.ast.value, use=n.ast, keep=("frame",)))]
     ck.expect(len(pads) >= 1, "_iterate: padding step `frame = Frame(..., self._padding.pad(...))` not found")
     if not pads:
         return
@@ -128,6 +128,8 @@ def rule_padding_after_cache(ck, m, rid):
     ck.need(stores, "_iterate: cache store not found")
     for s in stores:
         v = s.ast.value
+        if isinstance(v, ast.Name):
+            v = trace(itf, v, use=s.ast, keep=("frame", "renderable_data", "render_data"))         # (the entry may be built in a local first)
         first = v.elts[0] if isinstance(v, ast.Tuple) and v.elts else v
         ck.ob(rid, s.ast, norm(first) == "frame", f"the cache must store the rendered frame itself; found `{short(v, 60)}`", stmt="_iterate: cache stores the frame returned by _render_")
     rebind = lambda n: n.kind == "stmt" and n.ast is not None and n not in pads and any(isinstance(t, ast.Name) and t.id == "frame" for t, _ in stores_in(n.ast))  # noqa: E731
@@ -141,6 +143,12 @@ def rule_padding_after_cache(ck, m, rid):
         src = norm(trace(itf, p_.ast.value, keep=("frame",)))
         ck.ob(rid, p_.ast, "self._padded_size" in src and "self._padding.pad(frame.render_output, frame.render_size)" in src,
               "the padding step must use the current self._padding / self._padded_size and pad the unpadded output with the unpadded size", stmt="_iterate: padding step uses current padding")
+
+
+def _dn(src):
+    """every spelling of the renderable-data namespace (the local, the attribute, an inlined helper's local) read as `data.`"""
+    import re as _re
+    return _re.sub(r"(self\._)?renderable_data(__i\d+)?\.", "data.", src)
 
 
 def run(ck, m):
@@ -190,7 +198,7 @@ def run(ck, m):
                       stmt=f"cache key covers {cell}")
         ck.expect(decided, "_iterate: comparison of the current settings with the stored details not recognised in the miss condition")
         return
-    compared = [norm(e).replace("renderable_data.", "data.") for e in cur_side.elts]
+    compared = [_dn(norm(e)) for e in cur_side.elts]
     # the details compared must be the ones stored WITH THE ENTRY looked up under the current frame number
     oth_t = norm(oth_side)
     per_entry = oth_t == "cache[frame_no][1:]" or (isinstance(oth_side, ast.Tuple) and len(oth_side.elts) == len(cur_side.elts)
@@ -202,9 +210,13 @@ def run(ck, m):
         ck.ob("R1", miss_if, cell in compared,
               f"`{cell}` can be changed by a control method and is an input of _render_, but is not part of the cache key {compared}: after changing it a cached frame rendered with the old value is served",
               stmt=f"cache key covers {cell}")
+    KEEPS = ("renderable_data", "render_data", "frame", "cache", "frame_no")
+    def _stored_tuple(n):
+        v = n.value if isinstance(n.value, ast.Tuple) else trace(itf, n.value, use=n, keep=KEEPS)      # (the entry may be built in a local first)
+        return v if isinstance(v, ast.Tuple) else None
     store = next((n for n in body_walk(itf) if isinstance(n, ast.Assign) and isinstance(n.targets[0], ast.Subscript) and norm(n.targets[0].value) == "cache"
-                  and isinstance(n.value, ast.Tuple) and len(n.value.elts) == len(compared) + 1), None)
-    stored = [norm(e).replace("renderable_data.", "data.") for e in store.value.elts[1:]] if store is not None else None
+                  and _stored_tuple(n) is not None and len(_stored_tuple(n).elts) == len(compared) + 1), None)
+    stored = [_dn(norm(trace(itf, e, use=store, keep=KEEPS))) for e in _stored_tuple(store).elts[1:]] if store is not None else None
     ck.ob("R1", store or itf, stored == compared, f"details stored with a frame {stored} differ from the details compared {compared}", stmt="stored details == compared details")
     ck.ob("R1", store or itf, store is not None and norm(store.targets[0].slice) == "frame_no" and rc.lineno < store.lineno, "the frame must be stored under its own frame number after the render", stmt="cache[frame_no] stored after render")
     # every render made while caching is on is stored: the store happens under the conditions of the render plus (at most) the caching switch itself.
